@@ -7,7 +7,7 @@ import Octo.Gen.LoopsGen
 `bin/translate_loops.py` under the classification rules in the header of `Octo/Gen/LoopsGen.lean`.  For each loop that serves
 every flow the obligation `…_isolated` is re-decided against the current code; `…_alive` is then the instance of the generic
 theorem (`Octo.Loops.runIters_serving_of_isolated`: all paths, all adversaries, any number of iterations).  Loops that are NOT
-isolated under the rules get an exact characterisation of the residual sites (`…_residual`) and the conditional statement.
+isolated under the rules (today: `startup_udp`) get an exact characterisation of the residual sites (`…_residual`) and the conditional statement.
 The loops that serve one association get the weaker statement that fits them (`…_assocOk`, `…_datagram_faults_continue`).
 -/
 namespace Octo.LoopsGen
@@ -18,7 +18,7 @@ theorem c08_generated_service_loops :
     serviceLoops.map (·.name) = ["startup_tcp_1", "startup_tcp_2", "startup_quic", "startup_udp", "transfer_tcp", "transfer_udp"] := by
   decide
 theorem c08_generated_assoc_loops : assocLoops.map (·.name) = ["relay", "new_binding"] := by decide
-theorem c08_generated_callees : callees.map (·.name) = ["callee_new_binding", "callee_create"] := by decide
+theorem c08_generated_callees : callees.map (·.name) = ["callee_create"] := by decide
 
 /-- a kind and operation name per site: what a residual is compared by (stable under renamed locals and added log lines) -/
 def key (s : Site) : SiteKind × String := (s.kind, s.op)
@@ -74,28 +74,20 @@ theorem c08_generated_startup_udp_residual_callee :
 theorem c08_generated_startup_udp_handover_never_waits :
     (startup_udp.level.filter (fun s => s.kind == .await_ && s.op == "try_send")) = [] := by decide
 
-/-! ## client: `transfer_udp` — NOT isolated under the rules: five residual sites -/
+/-! ## client: `transfer_udp` (since 9c60c4d: a binding is opened and written to by futures of their own) -/
 
-/-- opening the outbound of a new / retried binding (`new_out(..).await`), sending its first datagram
-    (`new_binding(..).await`) and writing to the outbound of an existing binding (`value.sink.send(..).await`) are awaited
-    by the loop that serves every binding -/
-theorem c08_generated_transfer_udp_residual :
-    (nonIsolatedSites transfer_udp).map key =
-      [(.await_, "new_out"), (.await_, "new_binding"), (.await_, "new_out"), (.await_, "new_binding"), (.await_, "send")] := by
-  decide
-/-- their failures are consumed in the loop: what remains is that they may not complete -/
-theorem c08_generated_transfer_udp_residual_handled : (nonIsolatedSites transfer_udp).all (·.handled) = true := by decide
-/-- no `?`, `unwrap`, `break` or `return` under a peer's control: no fault ENDS the loop -/
-theorem c08_generated_transfer_udp_never_ended :
-    (nonIsolatedSites transfer_udp).all (fun s => s.kind == .await_ && !s.service) = true := by decide
-/-- what `new_binding(..).await` waits for, in the loop's task: sending the first datagram on the new outbound
-    (`client_server.send(..).await?`); the server → client direction runs in a task of its own -/
-theorem c08_generated_transfer_udp_residual_callee :
-    (callee_new_binding.level.filter (fun s => s.kind == .await_)).map (fun s => (s.op, s.perFlow)) = [("send", true)] := by
-  decide
-theorem c08_generated_transfer_udp_alive_unless (its : List Iter) (h : ∀ it ∈ its, it.quietAt transfer_udp) :
-    runIters transfer_udp .serving its = .serving :=
-  runIters_serving_of_quiet _ its h
+theorem c08_generated_transfer_udp_isolated : transfer_udp.isolated = true := by decide
+/-- after any finite sequence of adversarial iterations the client's udp relay is still serving every binding -/
+theorem c08_generated_transfer_udp_alive (its : List Iter) : runIters transfer_udp .serving its = .serving :=
+  runIters_serving_of_isolated _ c08_generated_transfer_udp_isolated its
+/-- opening an outbound (`new_out`, `new_binding`) and writing to one (`send` on its sink) are still there, and every one of them
+    is in a future pushed into one of the loop's own future sets (polled by the arms `opening.next()` / `writers.next()`) -/
+theorem c08_generated_transfer_udp_binding_work_in_pushed_futures :
+    (transfer_udp.sites.filter (fun s => s.kind == .await_ && !s.service && s.perFlow)).map (fun s => (s.op, s.inPushedFuture)) =
+      [("new_out", true), ("new_binding", true), ("send", true)] := by decide
+/-- handing a datagram to a binding does not wait: no await on `try_send` / `send` of a queue at loop level -/
+theorem c08_generated_transfer_udp_handover_never_waits :
+    (transfer_udp.level.filter (fun s => s.kind == .await_ && !s.service)) = [] := by decide
 
 /-! ## the loops that serve one association -/
 
@@ -124,16 +116,10 @@ theorem c08_generated_new_binding_datagram_faults_continue (path : Nat → Bool)
 example : datagramLevel relay.level (fun _ => .fail) := by intro i _ _ _; simp
 example : datagramLevel new_binding.level (fun _ => .fail) := by intro i _ _ _; simp
 example : (⟨fun _ => true, fun _ => .pass⟩ : Iter).quietAt startup_udp := by intro k _ _; rfl
-example : (⟨fun _ => true, fun _ => .pass⟩ : Iter).quietAt transfer_udp := by intro k _ _; rfl
 
 /-! the conditional statements are not vacuous the other way either: at a residual site the adversary CAN stop the loop -/
 
-/-- a binding whose outbound never opens (position of the first `new_out` among the loop's own sites) holds up
-    `transfer_udp` for every binding -/
-theorem c08_generated_transfer_udp_stall_blocks :
-    ∃ k, iteration transfer_udp (fun _ => true) (fun i => if i = k then .stall else .pass) = .stuck := by
-  refine ⟨(transfer_udp.level.findIdx (fun s => s.violates)), ?_⟩
-  decide
+/-- an association whose creation does not complete holds up `startup_udp` -/
 theorem c08_generated_startup_udp_stall_blocks :
     ∃ k, iteration startup_udp (fun _ => true) (fun i => if i = k then .stall else .pass) = .stuck := by
   refine ⟨(startup_udp.level.findIdx (fun s => s.violates)), ?_⟩
@@ -147,5 +133,8 @@ example : oldPeerAddrQuestion.isolated = false ∧ iteration oldPeerAddrQuestion
 example : oldAssocSendAwait.isolated = false := oldAssocSendAwait_not_isolated
 example : oldWhileLetAccept.isolated = false := oldWhileLetAccept_not_isolated
 example : oldReplayBreak.assocOk = false := oldReplayBreak_not_assocOk
+example : oldClientBindingInline.isolated = false
+    ∧ iteration oldClientBindingInline (fun _ => true) (fun k => if k = 5 then .stall else .pass) = .stuck :=
+  ⟨oldClientBindingInline_not_isolated, oldClientBindingInline_stuck⟩
 
 end Octo.LoopsGen
